@@ -199,6 +199,27 @@ def block_diagonal(M, C):
                     C.append((tag + f"/block-{name}-uses-own-block-and-vector-part", core.DISCHARGED if st != "differs" else core.FAILED, "symla:" + be, 0.0, detail, wit))
     except Exception as e:  # noqa: BLE001
         C.append((tag + "/tuple-of-block-gradients", core.FAILED, "symla", 0.0, f"{type(e).__name__}: {e}", None))
+    # "gradient with the structure of the parameter": a block that is itself block diagonal has a nested parameter (a, (b, c))
+    tagn = tag + "[nested block]"
+    try:
+        inner = M.PositiveDefiniteBlockDiagonalMatrix((M.PositiveScaledIdentityMatrix(s, 1), M.TriangularFactoredPositiveDefiniteMatrix(L)))
+        Z = M.PositiveDefiniteBlockDiagonalMatrix((M.PositiveDiagonalMatrix(dp), inner))
+        h1, h2 = Z.grad_log_abs_det, Z.grad_quadratic_form_inv(v)
+
+        def shape_of(g):
+            return tuple(shape_of(x) for x in g) if isinstance(g, tuple) else "leaf"
+        want_shape = ("leaf", ("leaf", "leaf"))
+        ok = shape_of(h1) == want_shape and shape_of(h2) == want_shape
+        C.append((tagn + "/gradient-has-the-nested-structure-of-the-parameter", core.DISCHARGED if ok else core.FAILED, "symla", 0.0,
+                  "" if ok else f"parameter structure (a, (b, c)); grad_log_abs_det has {shape_of(h1)}, grad_quadratic_form_inv has {shape_of(h2)}", None))
+        if ok:
+            flat = [(h1[0], h2[0], blocks[0], parts[0]), (h1[1][0], h2[1][0], blocks[1], parts[1]), (h1[1][1], h2[1][1], blocks[2], parts[2])]
+            for g_l, g_q, b, part in flat:
+                for name, got, want in (("grad_log_abs_det", g_l, b.grad_log_abs_det), ("grad_quadratic_form_inv", g_q, b.grad_quadratic_form_inv(part))):
+                    st, be, detail, wit = compare(got, want)
+                    C.append((tagn + f"/block-{name}-uses-own-block-and-vector-part", core.DISCHARGED if st != "differs" else core.FAILED, "symla:" + be, 0.0, detail, wit))
+    except Exception as e:  # noqa: BLE001
+        C.append((tagn + "/gradient-has-the-nested-structure-of-the-parameter", core.FAILED, "symla", 0.0, f"{type(e).__name__}: {e}", None))
     Y = M.PositiveDefiniteBlockDiagonalMatrix((M.PositiveDiagonalMatrix(dp), M.EigendecomposedPositiveDefiniteMatrix(eye(1), posvec("e", 1))))
     try:
         Y.grad_log_abs_det
@@ -242,6 +263,28 @@ def run(run_, tier):
         run_.function(f"mici.matrices.{c}.grad_quadratic_form_inv")
     run_.replay_for("", lambda w: {"script": "c11_gradients.py", "args": [json.dumps(w or {})], "timeout": 600})
     run_obligations(run_)
+    dtype_independence(run_)
+
+
+def dtype_independence(run_):
+    """BOUNDED native stand-in (Engine B computes over the reals and cannot see dtypes): results depend on the values of the
+    parameter arrays, not on their dtype -- integer-valued parameters stored as int64 and as float64 give the same gradients,
+    inverse products, log-determinant and array, for one instance per differentiable class."""
+    import os
+    import subprocess
+    script = os.path.join(core.VERIF, "replays", "c11_dtype.py")
+    try:
+        p = subprocess.run([core.NATIVE_PY, script, "json"], capture_output=True, text=True, timeout=300, env=dict(os.environ, PYTHONPATH=core.SRC))
+        res = json.loads(p.stdout.strip().splitlines()[-1])
+    except Exception as e:  # noqa: BLE001
+        run_.ob("matrices/results-independent-of-parameter-dtype", core.ERROR, "native-exec", detail=f"{type(e).__name__}: {e}", klass="bounded")
+        return
+    for name, diffs in res.items():
+        run_.ob(f"matrices.{name}/results-independent-of-parameter-dtype", core.DISCHARGED if not diffs else core.FAILED, "native-exec", klass="bounded",
+                detail="" if not diffs else "; ".join(f"{k}: {v}" for k, v in diffs.items())[:600], witness=diffs or None,
+                replay=(lambda w: {"script": "c11_dtype.py", "args": ["check"], "timeout": 300}) if diffs else None,
+                text="bounded (one integer-valued instance per class): int64 and float64 parameter arrays of equal values give equal results")
+    run_.bounded.append({"id": "C11/matrices.*/results-independent-of-parameter-dtype", "detail": "one integer-valued instance per differentiable class, native execution"})
 
 
 def run_obligations(run_, keep=None):
